@@ -113,6 +113,28 @@ void out_viol(const char *prop, const char *key, const char *replay_json, const 
         }
         pthread_mutex_unlock(&out_mu);
 }
+int label_rec_n, clog_on;
+static char label_recs[16][200];
+#define CLOG_MAX 48
+static char clog_ev[CLOG_MAX][240], clog_ttl[300]; static int clog_n;
+void label_rec(void)
+{
+        pthread_mutex_lock(&out_mu);
+        if (label_rec_n < 16) { snprintf(label_recs[label_rec_n], sizeof label_recs[0], "%s", cur_label); label_rec_n++; }
+        pthread_mutex_unlock(&out_mu);
+}
+void clog_title(const char *fmt, ...)
+{
+        if (!clog_on || clog_ttl[0]) return;
+        va_list ap; va_start(ap, fmt); vsnprintf(clog_ttl, sizeof clog_ttl, fmt, ap); va_end(ap);
+}
+void clog_event(const char *fmt, ...)
+{
+        if (!clog_on) return;
+        pthread_mutex_lock(&out_mu);
+        if (clog_n < CLOG_MAX) { va_list ap; va_start(ap, fmt); vsnprintf(clog_ev[clog_n], sizeof clog_ev[0], fmt, ap); va_end(ap); clog_n++; }
+        pthread_mutex_unlock(&out_mu);
+}
 static int n_samples;
 void out_sample(const char *fmt, ...)
 {
@@ -169,6 +191,17 @@ void out_finish(void)
         for (int i = 0; i < nctr; i++) {
                 printf("{\"t\":\"%s\",\"name\":", ctr[i].is_max ? "max" : "count"); json_str(stdout, ctr[i].name);
                 printf(",\"n\":%llu}\n", (unsigned long long) ctr[i].v);
+        }
+        if (clog_n) {
+                fputs("{\"t\":\"sample\",\"v\":{\"observed_case\":", stdout); json_str(stdout, clog_ttl);
+                fputs(",\"events\":[", stdout);
+                for (int i = 0; i < clog_n; i++) { if (i) fputc(',', stdout); json_str(stdout, clog_ev[i]); }
+                fputs("]}}\n", stdout);
+        }
+        if (label_rec_n) {
+                fputs("{\"t\":\"sample\",\"v\":{\"first_monitored_calls\":[", stdout);
+                for (int i = 0; i < label_rec_n; i++) { if (i) fputc(',', stdout); json_str(stdout, label_recs[i]); }
+                fputs("]}}\n", stdout);
         }
         if (g_featout) {
                 FILE *f = fopen(g_featout, "wb");
@@ -305,6 +338,23 @@ int gcanary_ok(const gbuf_t *g, long *where)
         return 1;
 }
 void gfree(gbuf_t *g) { if (g->map) munmap(g->map, g->maplen); g->map = NULL; }
+#ifndef MAP_FIXED_NOREPLACE
+#define MAP_FIXED_NOREPLACE 0x100000
+#endif
+uint8_t *straddle_map(size_t half)
+{
+        static int next;
+        half = (half + PG - 1) & ~(size_t) (PG - 1);
+        for (int tries = 0; tries < 8; tries++) {
+                uint64_t k = 0x20 + (uint64_t) __atomic_fetch_add(&next, 1, __ATOMIC_RELAXED);
+                if (k >= 0x6000) return NULL;
+                uint8_t *want = (uint8_t *) (uintptr_t) ((k << 32) - half);
+                uint8_t *m = mmap(want, 2 * half, PROT_READ | PROT_WRITE, MAP_PRIVATE | MAP_ANONYMOUS | MAP_FIXED_NOREPLACE, -1, 0);
+                if (m == want) { out_count("straddle_regions_mapped", 1); return m; }
+                if (m != MAP_FAILED) munmap(m, 2 * half);
+        }
+        return NULL;
+}
 static uint8_t *none_lo; static size_t none_len;
 void *gnone_ptr(void)
 {
